@@ -34,8 +34,8 @@ var draft07Keywords = map[string]bool{"$schema": true, "$id": true, "$ref": true
 	"else": true, "allOf": true, "anyOf": true, "oneOf": true, "not": true}
 
 func checkC12(ctx *Ctx, r *Report) {
-	r.Explanation = "Generator-side necessary conditions decided on the JSON Schema jenny (the OpenAPI jenny wraps its `definitions`): (1) formatType/formatScalar handle every kind the jsonschema/openapi pass chains leave in place — a kind falling through yields the empty schema `{}` and loses names, constraints and constants; (2) dialect: every keyword the shared jenny writes belongs to JSON Schema draft-07 AND to OpenAPI 3.0, with the same value type (the OpenAPI jenny declares 3.0.0); (3) `$ref` closure: formatRef enqueues the referred foreign object whenever the reference is foreign and resolvable, the closure loop runs until the queue is empty and formats each queued object through formatType on every path (no memoised shortcut); (4) struct skeleton: the property key is field.Name itself, `required` is appended exactly under field.Required, `default` is set exactly under Default != nil with that very value; (5) the Nullable flag of a type is reflected in the emitted schema; an `any` scalar does not constrain `type`; a schema derived from a map's index type is only emitted under a positive string-kind test; (6) every constraint operator a parser can produce is translated."
-	r.NotCovered = "validity of whole documents for independent loaders, that every encoded Go value validates (decided only for the nullable / any clauses above), name collisions between same-named objects of different packages, comments, formats other than date-time."
+	r.Explanation = "Generator-side necessary conditions decided on the JSON Schema jenny (the OpenAPI jenny wraps its `definitions`): (1) formatType/formatScalar handle every kind the jsonschema/openapi pass chains leave in place — a kind falling through yields the empty schema `{}` and loses names, constraints and constants; (2) dialect: every keyword the shared jenny writes belongs to JSON Schema draft-07 AND to OpenAPI 3.0, with the same value type (the OpenAPI jenny declares 3.0.0); (3) `$ref` closure: formatRef enqueues the referred foreign object whenever the reference is foreign and resolvable, the closure loop runs until the queue is empty and formats each queued object through formatType on every path (no memoised shortcut); (4) struct skeleton: the property key is field.Name itself, `required` is appended exactly under field.Required, `default` is set exactly under Default != nil with that very value; (5) the Nullable flag of a type is reflected in the emitted schema; an `any` scalar does not constrain `type`; a schema derived from a map's index type is only emitted under a positive string-kind test; (6) every constraint operator a parser can produce is translated; (7) union branches: all of them, each formatted afresh; (8) references go through the reference formatter; (9) cog's own OpenAPI front-end accepts an enum written the way formatEnum writes it; (10) the key of an inlined foreign definition and the text of the references to it come from one function of the whole reference, which can return a package-qualified name; (11) every wrapper struct DisjunctionToType creates for a union carries one of the two hints the Go marshaller is generated from; (12) value keywords are not written beside $ref."
+	r.NotCovered = "validity of whole documents for independent loaders, that every encoded Go value validates (decided only for the nullable / any clauses above), comments, formats other than date-time."
 	r.Assumptions = []string{"OpenAPI 3.0 schema-object vocabulary and JSON Schema draft-07 vocabulary as tabulated in c12.go"}
 	r.Exhaustive = true
 
